@@ -290,6 +290,12 @@ def oracle(case, obs, check=("sem", "md", "edges", "refs", "early", "emitwait", 
                 err = stat
         if err:
             any_error = True
+        for e in log:
+            if e[0] == "plumbing-raised" and ("sem" in check or "edges" in check or "fail" in check):
+                problems.append(("plumbing:emit-raised", "op %d %r: Stream._emit of node %d (%s) itself raised %s - no node's update() and no user function "
+                                 "below it raised; the downstream branches not yet served lost the element and the emitter sees an error nobody caused"
+                                 % (k, op, e[1], nodes[e[1]]["kind"], e[2])))
+                return problems
         if err and "RecursionError" in err and "sem" in check:
             problems.append(("semantics:non-terminating", "op %d %r: the emission never terminated (RecursionError): an element keeps circulating "
                              "(a de-duplicating node on a feedback edge let a repeated element through)" % (k, op)))
